@@ -21,7 +21,7 @@ RULE = ('cases = generated programs over FileStorage, MappingStorage and DemoSto
 ASSUMPTIONS = ['after close+reopen ids issued earlier but never stored (or packed away) may be issued again (the '
                'statement quantifies over "while a storage is open" and over what is stored)',
                'thread schedules of concurrent allocators are not explored by this check (sequential programs only)']
-BUDGET = {'quick': {'examples': 1500, 'workers': 8},
+BUDGET = {'quick': {'examples': 5000, 'workers': 8},
           'thorough': {'examples': 25000, 'workers': 16}}
 
 KINDS = ['fs', 'fs', 'mapping', 'demo', 'demo-map-base', 'demo-fs-base', 'demo-fs-changes']
